@@ -265,6 +265,12 @@ func (d DataSpec) Generate() []byte {
 		for len(out) < n {
 			out = append(out, byte('A'+r.Intn(26)))
 		}
+	case kind == "dom50":
+		// every second byte is the same value (16-bit samples with a constant high byte), the rest is
+		// uniform: in a block of 128 KiB the dominant value would occur 65536 times
+		for len(out) < n {
+			out = append(out, 0, byte(1+r.Intn(255)))
+		}
 	case kind == "rnd":
 		out = r.Bytes(n)
 	case kind == "mix":
